@@ -22,6 +22,7 @@ func init() {
 			{ID: "C03.R7", Floor: 5, Doc: "uint16(len(x)) counts in frame writers are bounded", Run: c03r7},
 			{ID: "C03.R8", Floor: 1, Doc: "marshalQueryValue: unset is decided after unwrapping a named value", Run: c03r8},
 			{ID: "C03.R9", Floor: 1, Doc: "finish(): header compression flag and body form agree on every path (=C18.R6)", Run: c18r6},
+			{ID: "C03.R10", Floor: 1, Doc: "finish(): the length patched into the header is computed from the buffer in its final form (=C18.R7)", Run: finishLength},
 		},
 	})
 }
